@@ -125,15 +125,22 @@ package frontend
 
 // ---- the entry points ------------------------------------------------------------------------------------------------------
 
+// parsedWith[model] is the context whose listeners (filters included) saw the parse tree the model was built from;
+// it is defined by parseCypher, the only function that runs the tree walker. ParseCypher hands back only models that
+// were parsed with the caller's own context.
+//@ ghost comp parsedWith *Context
 //@ func ParseCypher(ctx *Context, input string) (*cypher.RegularQuery, error)
 //@   requires ctx != nil
 //@   nosafety
+//@   ensures sameContext: result.1 == nil && result.0 != nil ==> parsedWith[result.0] == ctx
 //@   ensures blank: len(trimmed(input)) == 0 ==> result.0 == nil && result.1 == ErrInvalidInput && result.1 != nil
 //@   ensures errorsReachTheCaller: (exists i int :: 0 <= i && i < len(ctx.Errors) && ctx.Errors[i] != nil) ==> result.1 != nil
 
 //@ func parseCypher(ctx *Context, input string) (*cypher.RegularQuery, error)
 //@   requires ctx != nil
 //@   nosafety
+//@   ghostset parsedWith[result.0] := ctx
+//@   ensures sameContext: result.0 != nil ==> parsedWith[result.0] == ctx
 //@   ensures errorsReachTheCaller: (exists i int :: 0 <= i && i < len(ctx.Errors) && ctx.Errors[i] != nil) ==> result.1 != nil
 
 // ---- C07: syntax the model cannot represent is reported (kernel) -------------------------------------------------------
